@@ -145,3 +145,39 @@ theorem pow10u64_ok {k r : Nat} : pow10u64 k = .ok r ↔ 10 ^ k < L ∧ r = 10 ^
 end Cw
 
 end Halo
+
+namespace Halo
+
+/-- the limb decomposition is faithful below `2^256` -/
+theorem Limbs.ofNat_value {n : Nat} (h : n < U) : (Limbs.ofNat n).value = n := by
+  unfold Limbs.ofNat Limbs.value
+  have hL : L = 18446744073709551616 := by decide
+  have hU : U = 18446744073709551616 * 18446744073709551616 * 18446744073709551616 * 18446744073709551616 := by decide
+  simp only [hL] at *
+  rw [hU] at h
+  omega
+
+theorem Limbs.ofNat_wf (n : Nat) : (Limbs.ofNat n).wf := by
+  unfold Limbs.ofNat Limbs.wf
+  have hL : 0 < L := L_pos
+  exact ⟨Nat.mod_lt _ hL, Nat.mod_lt _ hL, Nat.mod_lt _ hL, Nat.mod_lt _ hL⟩
+
+/-- `From<Uint256> for u128`: succeeds exactly when the value fits in 128 bits, and then preserves it -/
+theorem toU128_ok {n r : Nat} (h : n < U) : toU128 n = .ok r ↔ n < W ∧ r = n := by
+  unfold toU128 Limbs.toU128 Limbs.ofNat
+  have hL : L = 18446744073709551616 := by decide
+  have hW : W = 18446744073709551616 * 18446744073709551616 := by decide
+  have hU : U = 18446744073709551616 * 18446744073709551616 * 18446744073709551616 * 18446744073709551616 := by decide
+  simp only [hL, hW] at *
+  rw [hU] at h
+  split
+  · simp only [Except.ok.injEq]; omega
+  · simp only [reduceCtorEq, false_iff]; omega
+
+theorem ofU128_eq (a : Nat) : ofU128 a = a := by
+  unfold ofU128 Limbs.ofU128 Limbs.splitU128 Limbs.value
+  have hL : L = 18446744073709551616 := by decide
+  simp only [hL]
+  omega
+
+end Halo
